@@ -318,6 +318,7 @@ func TestC15_ClientKillLive(t *testing.T) {
 	if err != nil {
 		t.Fatalf("HARNESS: %v", err)
 	}
+	n.keepRunning = true // it had AOF stream connections moments ago
 	defer n.stopAsync()
 	n.mustOK("SET", "fleet", "seed", "POINT", "33", "-115")
 	n.mustOK("SETCHAN", "livechan", "NEARBY", "fleet", "FENCE", "POINT", "33", "-115", "100000")
